@@ -456,4 +456,28 @@ structure StateAccess where
   disp  : Nat
 deriving Repr, DecidableEq
 
+/-- one call of `runtime.mallocgc(size, typ, needzero)`: from Go code (`via = "go"`, `typ` / `needzero` are
+    the argument expressions as written) or emitted by a JIT assembler (`via = "jit"`, what is moved
+    into BX / CX before `call_go(_F_mallocgc)`) -/
+structure RawAlloc where
+  file     : String
+  fn       : String
+  via      : String
+  typ      : String
+  needzero : String
+deriving Repr, DecidableEq
+
+/-- `needzero` is the constant true -/
+def RawAlloc.zeroed (a : RawAlloc) : Bool := a.needzero == "true" || a.needzero == "MOVB jit.Imm(1)"
+
+/-- one `rt.NoEscape(unsafe.Pointer(&x))`: operand, the call it is an argument of, the innermost
+    enclosing `if` (`then:<cond>` / `else:<cond>` / empty) -/
+structure NoEscapeSite where
+  file    : String
+  fn      : String
+  operand : String
+  callee  : String
+  guard   : String
+deriving Repr, DecidableEq
+
 end SonicSpec.Loader
